@@ -108,6 +108,19 @@ impl Prop for C11 {
             },
         ));
         v.push(Scope::new(
+            "large",
+            "a small box, a word and an arrow placed 900..20000 columns to the right or 450..20000 rows down (declared sizes up to 750 000 units) x 6 scales: the canvas keeps scaling with the content",
+            |f| {
+                for n in [900usize, 1000, 1800, 5000, 20000] {
+                    f(Case::s(enumr::shift("+--+\n|ab|\n+--+ -->", n, 0)));
+                }
+                for n in [450usize, 1000, 5000, 20000] {
+                    f(Case::s(enumr::shift("+--+\n|ab|\n+--+ -->", 0, n)));
+                }
+                f(Case::s(enumr::shift("(_)--*", 3000, 1500)));
+            },
+        ));
+        v.push(Scope::new(
             "nbhd2",
             "every drawing character (ASCII + unicode tables) with one other at each neighbouring position x 6 scales (thorough) / 2 scales (quick)",
             move |f| {
